@@ -216,7 +216,7 @@ def run(ctx: Ctx):
         cases = []
         for oi, opts in enumerate(OPTS[name][: 1 if quick else 3]):
             for si, stack in enumerate(stacks if (not quick or oi == 0) else stacks[:1]):
-                cases.append({"env": name, "opts": opts, "stack": stack, "T": ctx.n(96, 512), "n_traj": ctx.n(16, 128), "key": ctx.seed * 31 + oi * 7 + si})
+                cases.append({"env": name, "opts": opts, "stack": stack, "T": ctx.n(320, 768), "n_traj": ctx.n(24, 128), "key": ctx.seed * 31 + oi * 7 + si})
         payloads.append(cases)
     for name in MUJOCO:
         cases = []
